@@ -29,8 +29,8 @@ EXTENDS Integers, Sequences, FiniteSets, TLC
 
 CONSTANTS Mods, Children, NP, CacheOf, Kind, TopLists, MaxCalls, MayFail
 
-VARIABLES done, pending, failed, applied, marked, dirty, call, stack, ncalls, outcome, failedAt
-svars == <<done, pending, failed, applied, marked, dirty, call, stack, ncalls, outcome, failedAt>>
+VARIABLES done, pending, failed, applied, marked, dirty, call, stack, ncalls, outcome, failedAt, sinceEdit
+svars == <<done, pending, failed, applied, marked, dirty, call, stack, ncalls, outcome, failedAt, sinceEdit>>
 
 Caches == {CacheOf[i] : i \in 1..NP}
 Idle == [active |-> FALSE, tops |-> <<>>, t |-> 0, i |-> 0]
@@ -38,11 +38,23 @@ Idle == [active |-> FALSE, tops |-> <<>>, t |-> 0, i |-> 0]
 SInit == /\ done = [c \in Caches |-> {}] /\ pending = [c \in Caches |-> {}] /\ failed = [c \in Caches |-> {}] /\ dirty = {}
          /\ applied = [m \in Mods |-> <<>>] /\ marked = {}
          /\ call = Idle /\ stack = <<>> /\ ncalls = 0 /\ outcome = "none" /\ failedAt = <<>>
+         /\ sinceEdit = [m \in Mods |-> {}]
 
+(* Elaborator.elaborate: modules an earlier run left part-way (done in some pass, never marked) are still editable; before the first pass
+   their `done` marks are dropped, so that they go through every pass - and every check - again *)
+(* ... except those a pass failed on: they stay as they are and report that failure again when that pass is reached *)
+Keep == marked \cup UNION {failed[c] : c \in Caches}
 Call(tops) == /\ ~call.active /\ ncalls < MaxCalls
               /\ call' = [active |-> TRUE, tops |-> tops, t |-> 1, i |-> 1]
               /\ ncalls' = ncalls + 1 /\ outcome' = "running"
-              /\ UNCHANGED <<done, pending, failed, dirty, applied, marked, stack, failedAt>>
+              /\ done' = [c \in Caches |-> done[c] \cap Keep]
+              /\ applied' = [m \in Mods |-> IF m \in Keep THEN applied[m] ELSE <<>>]
+              /\ UNCHANGED <<pending, failed, dirty, marked, stack, failedAt, sinceEdit>>
+(* the designer edits a module that is not (yet) marked elaborated - between calls; enabled with MayFail (only a failed call leaves such modules
+   behind with passes already applied), at most once per module *)
+Edit(m) == /\ MayFail /\ ~call.active /\ m \notin marked /\ applied[m] # <<>> /\ sinceEdit[m] # {}
+           /\ sinceEdit' = [sinceEdit EXCEPT ![m] = {}]
+           /\ UNCHANGED <<done, pending, failed, applied, marked, dirty, call, stack, ncalls, outcome, failedAt>>
 
 C == CacheOf[call.i]
 Abort(why) == /\ call' = Idle /\ stack' = <<>> /\ outcome' = why
@@ -54,12 +66,12 @@ Unwind == /\ pending' = [pending EXCEPT ![C] = @ \ Frames]
           /\ failed' = [failed EXCEPT ![C] = @ \cup Frames]
 Begin(m, adv(_)) ==
   IF m \in failed[C] THEN                                                                                        \* ReFail: the original failure again
-       /\ Abort("raised_original") /\ Unwind /\ UNCHANGED <<done, dirty, applied, marked, ncalls, failedAt>>
-  ELSE IF m \in done[C] THEN adv(FALSE) /\ UNCHANGED <<done, pending, failed, dirty, applied, marked, ncalls, outcome, failedAt>>   \* SkipDone
+       /\ Abort("raised_original") /\ Unwind /\ UNCHANGED <<done, dirty, applied, marked, ncalls, failedAt, sinceEdit>>
+  ELSE IF m \in done[C] THEN adv(FALSE) /\ UNCHANGED <<done, pending, failed, dirty, applied, marked, ncalls, outcome, failedAt, sinceEdit>>   \* SkipDone
   ELSE IF m \in pending[C] THEN                                                                                  \* Circular
-       /\ Abort("raised_circular") /\ Unwind /\ UNCHANGED <<done, dirty, applied, marked, ncalls, failedAt>>
+       /\ Abort("raised_circular") /\ Unwind /\ UNCHANGED <<done, dirty, applied, marked, ncalls, failedAt, sinceEdit>>
   ELSE /\ pending' = [pending EXCEPT ![C] = @ \cup {m}]                                                          \* Enter
-       /\ adv(TRUE) /\ UNCHANGED <<done, failed, dirty, applied, marked, ncalls, outcome, failedAt>>
+       /\ adv(TRUE) /\ UNCHANGED <<done, failed, dirty, applied, marked, ncalls, outcome, failedAt, sinceEdit>>
 
 VisitChild ==
   /\ call.active /\ stack # <<>> /\ stack[Len(stack)].todo # <<>>
@@ -80,6 +92,7 @@ ApplyExit ==
      /\ pending' = [pending EXCEPT ![C] = @ \ {m}]
      /\ done' = [done EXCEPT ![C] = @ \cup {m}]
      /\ stack' = SubSeq(stack, 1, Len(stack) - 1)
+     /\ sinceEdit' = [sinceEdit EXCEPT ![m] = @ \cup {call.i}]
      /\ UNCHANGED <<call, failed, dirty, ncalls, outcome, failedAt>>
 (* the pass raises while working on the top frame's module (a design error, or an exception in user code); a rewriting pass
    may have modified the module part-way (dirty) *)
@@ -88,14 +101,14 @@ FailAt ==
   /\ failedAt' = <<call.i, stack[Len(stack)].m>>
   /\ dirty' = IF Kind[call.i] = "rewrite" THEN dirty \cup {stack[Len(stack)].m} ELSE dirty
   /\ Abort("raised_fault") /\ Unwind
-  /\ UNCHANGED <<done, applied, marked, ncalls>>
+  /\ UNCHANGED <<done, applied, marked, ncalls, sinceEdit>>
 NextPass ==
   /\ call.active /\ stack = <<>> /\ call.t > Len(call.tops)
   /\ IF call.i < NP THEN call' = [call EXCEPT !.i = @ + 1, !.t = 1] /\ outcome' = outcome
      ELSE call' = Idle /\ outcome' = "returned"
-  /\ UNCHANGED <<done, pending, failed, dirty, applied, marked, stack, ncalls, failedAt>>
+  /\ UNCHANGED <<done, pending, failed, dirty, applied, marked, stack, ncalls, failedAt, sinceEdit>>
 
-SNext == (\E tops \in TopLists : Call(tops)) \/ VisitChild \/ VisitTop \/ ApplyExit \/ FailAt \/ NextPass
+SNext == (\E tops \in TopLists : Call(tops)) \/ (\E m \in Mods : Edit(m)) \/ VisitChild \/ VisitTop \/ ApplyExit \/ FailAt \/ NextPass
 
 (* ---------------- properties ---------------- *)
 LastRewrite(s) == LET R == {k \in 1..Len(s) : Kind[s[k]] = "rewrite"} IN IF R = {} THEN 0 ELSE CHOOSE k \in R : \A j \in R : j <= k
@@ -107,11 +120,14 @@ RECURSIVE Closure(_, _)
 Closure(ms, fuel) == IF fuel = 0 THEN ms ELSE Closure(ms \cup UNION {{Children[m][k] : k \in 1..Len(Children[m])} : m \in ms}, fuel - 1)
 HistoryIndependent == (outcome = "returned") => \A m \in marked : Len(applied[m]) = NP
 MarkedAreComplete == \A m \in marked : Len(applied[m]) = NP
-ChildrenFirst == \A m \in Mods : \A k \in 1..Len(Children[m]) : Len(applied[Children[m][k]]) >= Len(applied[m])
+(* (a module a pass failed on is frozen as it is, while its unfinished children start over at the next call: the order is required of live modules) *)
+ChildrenFirst == \A m \in Mods \ UNION {failed[c] : c \in Caches} : \A k \in 1..Len(Children[m]) : Len(applied[Children[m][k]]) >= Len(applied[m])
 (* C08: a finished call - returned or raised - leaves no pending entry behind *)
 NoStalePending == ~call.active => \A c \in Caches : pending[c] = {}
 (* C08: a module a rewriting pass failed on is never marked elaborated (hence never exported) *)
 HalfRewrittenNeverMarked == marked \cap dirty = {}
+(* C02 / C08: a module that is marked elaborated (and so exported) went through every checking pass AFTER the designer last edited it *)
+EditsAreChecked == \A m \in marked : {i \in 1..NP : Kind[i] = "check"} \subseteq sinceEdit[m]
 (* C08: failures never spread to modules that were not on the failing path *)
 FailedOnlyOnFailingPath == \A c \in Caches : \A m \in failed[c] : failedAt # <<>>
 =============================================================================
